@@ -16,7 +16,11 @@ func vArbStoreVar(st variable.Storer, tag, name string) int {
 	k := vChoose(tag+".state", 4) - 1
 	switch k {
 	case 0:
-		st.SetNumberValue(name, vFloat(tag+".n"))
+		if vNumbersAsInts {
+			st.SetNumberValue(name, float64(vIntRange(tag+".i", -9, 9)))
+		} else {
+			st.SetNumberValue(name, vFloat(tag+".n"))
+		}
 	case 1:
 		st.SetBooleanValue(name, vBool(tag+".b"))
 	case 2:
@@ -75,9 +79,55 @@ func vNewRunnerWithStore(st variable.Storer) *DialogueRunner {
 	return vRunnerAt(st, &tree.Dialogue{}, "n0")
 }
 
+// vSetTable: the assignment table of the property statement: what `v op= rv` stores into a store holding
+// `before` (vk: kind of v there, -1 absent), or that it is an error.
+func vSetTable(before map[string]variable.Value, vk int, op int, rv *variable.Value) (variable.Value, bool) {
+	wantErr := false
+	var want variable.Value
+	rk := vKind(rv)
+	switch {
+	case rv == nil || rk < 0:
+		wantErr = true // reading an unknown variable
+	case vk >= 0 && vk != rk:
+		wantErr = true // a variable never changes type
+	case vk < 0 && op != tree.AssignmentInPlaceOperator:
+		wantErr = true // compound assignment to an unknown variable
+	case op == tree.AssignmentInPlaceOperator:
+		want = *rv
+	case rk == 0:
+		prev := *before["v"].Number
+		x := *rv.Number
+		var r float64
+		switch op {
+		case tree.AdditionInPlaceOperator:
+			r = prev + x
+		case tree.SubtractionInPlaceOperator:
+			r = prev - x
+		case tree.MultiplicationInPlaceOperator:
+			r = prev * x
+		case tree.DivisionInPlaceOperator:
+			r = prev / x
+		case tree.ModuloInPlaceOperator:
+			r = math.Mod(prev, x)
+		default:
+			wantErr = true
+		}
+		want = variable.Value{Number: &r}
+	case rk == 2 && op == tree.AdditionInPlaceOperator:
+		s := *before["v"].String + *rv.String // appends e on the right
+		want = variable.Value{String: &s}
+	default:
+		wantErr = true
+	}
+
+	return want, wantErr
+}
+
 // VHSetStatement: arbitrary store (v and w absent or of any type), one set/declare of v with an
 // arbitrary operator code and a right-hand side that is a value of any type or a read of w.
 func VHSetStatement() {
+	// numbers: arbitrary doubles, or integer-valued ones in [-9, 9] (for which % is decided exactly, see math.Mod)
+	vNumbersAsInts = vChoose("numbers.intvalued", 2) == 1
 	st := variable.NewInMemoryStorer()
 	names := []string{"v", "w"}
 	vk := vArbStoreVar(st, "v", "v")
@@ -121,44 +171,8 @@ func VHSetStatement() {
 		vAssert(vValueEq(*lit, rv0), "a statement does not rewrite the literal it assigns (the script is not changed by running it)")
 	}
 
-	// ---- the table ----
-	wantErr := false
-	var want variable.Value
+	want, wantErr := vSetTable(before, vk, op, rv)
 	rk := vKind(rv)
-	switch {
-	case rv == nil || rk < 0:
-		wantErr = true // reading an unknown variable
-	case vk >= 0 && vk != rk:
-		wantErr = true // a variable never changes type
-	case vk < 0 && op != tree.AssignmentInPlaceOperator:
-		wantErr = true // compound assignment to an unknown variable
-	case op == tree.AssignmentInPlaceOperator:
-		want = *rv
-	case rk == 0:
-		prev := *before["v"].Number
-		x := *rv.Number
-		var r float64
-		switch op {
-		case tree.AdditionInPlaceOperator:
-			r = prev + x
-		case tree.SubtractionInPlaceOperator:
-			r = prev - x
-		case tree.MultiplicationInPlaceOperator:
-			r = prev * x
-		case tree.DivisionInPlaceOperator:
-			r = prev / x
-		case tree.ModuloInPlaceOperator:
-			r = math.Mod(prev, x)
-		default:
-			wantErr = true
-		}
-		want = variable.Value{Number: &r}
-	case rk == 2 && op == tree.AdditionInPlaceOperator:
-		s := *before["v"].String + *rv.String // appends e on the right
-		want = variable.Value{String: &s}
-	default:
-		wantErr = true
-	}
 
 	vAssert((err != nil) == wantErr, "set/declare fails exactly when the table says so")
 	vAssert(vOneTypePerName(st, names), "the storer never reports one name under two types")
@@ -197,4 +211,21 @@ func VHSetStatement() {
 		vAssert(rerr == nil && read != nil && vValueEq(*read, *hv), "a host write is what the script reads next")
 		vReach("host-write")
 	}
+	// ... and what the next (compound) assignment starts from: a second statement on the same variable,
+	// after the host wrote or not
+	before2 := st.GetValues()
+	op2 := vInt("op2")
+	r2 := vArbValue("rhs2", rk, 1)
+	r2c := vCopyValue(r2)
+	err2 := dr.executeSetStatement(&tree.SetStatement{VariableID: "v", InPlaceOperator: op2, Expression: &tree.Expression{Value: r2}})
+	want2, wantErr2 := vSetTable(before2, rk, op2, &r2c)
+	vAssert((err2 != nil) == wantErr2, "a second assignment fails exactly when the table says so")
+	after2 := st.GetValues()
+	if err2 != nil {
+		vAssert(vStoreEq(before2, after2), "a failing second statement leaves every variable as it was")
+		return
+	}
+	got2, ok2 := after2["v"]
+	vAssert(ok2 && vValueEq(got2, want2), "a second assignment starts from what the storer holds")
+	vReach("second-assignment")
 }
